@@ -547,6 +547,19 @@ Definition bg2_text (bins : list bin) (names : list string) (one_based : bool) (
           nth (Z.to_nat (bchrom b2)) names EmptyString; print_Z (bstart b2 + d); print_Z (bend b2);
           print_Z (val p)]) px.
 
+(* ------------------------------------------------------------------ executable hypotheses of the round-trip theorems *)
+(** bins listed by (chromosome, start), the bins of a chromosome pairwise disjoint; names distinct; bins non-empty *)
+Definition binltb (x y : bin) : bool := (bchrom x <? bchrom y) || ((bchrom x =? bchrom y) && (bend x <=? bstart y)).
+Fixpoint bins_sorted_b (l : list bin) : bool :=
+  match l with [] => true | x :: t => forallb (binltb x) t && bins_sorted_b t end.
+Fixpoint names_nodup_b (l : list string) : bool :=
+  match l with [] => true | x :: t => negb (existsb (String.eqb x) t) && names_nodup_b t end.
+Definition bins_ok_b (bins : list bin) (names : list string) : bool :=
+  names_nodup_b names
+  && forallb (fun x => (0 <=? bchrom x) && (bchrom x <? Z.of_nat (length names)) && (bstart x <? bend x)) bins
+  && bins_sorted_b bins.
+
+
 (* ------------------------------------------------------------------ printable observables for the harness *)
 Inductive ocell := OZ (z : Z) | OS (s : string) | OQ (num den : Z) | ONaN.
 Definition obs_cell (x : cell) : ocell :=
